@@ -18,7 +18,7 @@ MANIFEST_ENTRY = dict(
     text="An explicit TLA+ grammar (spec/WireGrammar.tla) describes every external format as nested layers of typed fields "
          "(armored slatepack text, base58check, binary/JSON slatepack, age ciphertext, encrypted metadata, V4 binary and JSON slates, "
          "slatepack/onion addresses, payment-proof JSON, stored-transaction files, JSON-RPC envelopes of both listeners incl. the encrypted owner envelope) "
-         "with mutation operators per field kind, and transcribes the decoders as a staged pipeline state machine. TLC explores the machine for every "
+         "with mutation operators per field kind (for the text frames also runs of discardable filler characters ahead of the header, alone, or before a cut header, with lengths around the size bound), and transcribes the decoders as a staged pipeline state machine. TLC explores the machine for every "
          "(case, entry point) and checks Total (Ok or Err, store untouched), Bounded and agreement with the functional definition; TLC also emits every case. "
          "A Rust harness materialises each case from real encodings produced by the real encoders (re-wrapping validly: lengths, check bytes, encryption to the wallet's key), "
          "runs every real decoder entry point under catch_unwind, a watchdog and an allocation cap in worker processes, and TLC validates the recorded outcomes: "
